@@ -243,6 +243,11 @@ func Main(e Engine) {
 		}
 		cases = append(cases, e.Generate(*mode, *tier, NewRand(*seed))...)
 	}
+	if *worker {
+		// child process: execute only; it must not touch the supervisor's output files
+		runWorker(e, *mode, cases, *from)
+		return
+	}
 	meta := &Meta{Engine: e.Name(), Mode: *mode, Tier: *tier, Seed: *seed, Rule: e.Rule(*mode), Distribution: map[string]int{}, CorpusCases: ncorpus}
 	seen := map[string]bool{}
 	jl, err := os.Create(filepath.Join(*out, "cases.jsonl"))
@@ -269,10 +274,6 @@ func Main(e Engine) {
 		}
 		meta.Shards = append(meta.Shards, name)
 		terms = nil
-	}
-	if *worker {
-		runWorker(e, *mode, cases, *from)
-		return
 	}
 	record := func(i int, c *Case, res *Result, err error, pan any) {
 		if pan != nil {
